@@ -30,6 +30,27 @@ MODELS = {
 }
 
 
+def huawei_device_style(tree):
+    """the way a Huawei box prints its configuration: '#' separator lines around every block, global commands with one
+    leading space (annet's own formatter prints neither)"""
+    lines = ["#"]
+
+    def emit(t, ind):
+        for r, sub in t.items():
+            lines.append(" " * ind + r)
+            emit(sub, ind + 1)
+    for row, sub in tree.items():
+        if sub:
+            if lines[-1] != "#":
+                lines.append("#")
+            lines.append(row)
+            emit(sub, 1)
+            lines.append("#")
+        else:
+            lines.append(" " + row)
+    return "\n".join(lines) + "\n"
+
+
 class FilesMP(FakeMP):
     def describe(self, item):
         t = getattr(item, "type", None)
@@ -156,7 +177,14 @@ class Engine:
             for h in range(nhosts):
                 name, old, new = self._state(ch, vendor)
                 host = "host%d.cfg" % h
-                texts = (fmt.join(old) + "\n", fmt.join(new) + "\n")
+                texts = []
+                for tree in (old, new):
+                    if vendor.startswith("huawei") and ch.draw(2, "device-style") == 1:
+                        texts.append(huawei_device_style(tree))
+                        probes["huawei_device_style_text"] = 1
+                    else:
+                        texts.append(fmt.join(tree) + "\n")
+                texts = tuple(texts)
                 for side, text in zip(("old", "new"), texts):
                     with open(os.path.join(run_dir, side, host), "w") as f:
                         f.write(text)
